@@ -228,7 +228,7 @@ TWO_GATES = ["BSgate", "MZgate", "sMZgate", "S2gate", "CXgate", "CZgate"]
 PREPS = ["Vacuum", "Coherent", "Squeezed", "DisplacedSqueezed", "Thermal"]
 FOCK_OK = set(ONE_GATES + TWO_GATES + PREPS + ["LossChannel", "Interferometer", "GaussianTransform", "Gaussian", "New", "Del"])
 BOSONIC_OK = set(ONE_GATES + ["BSgate", "MZgate", "S2gate", "CXgate", "CZgate"] + PREPS +
-                 ["LossChannel", "ThermalLossChannel", "Gaussian", "Del"])  # (New on bosonic: recorded finding under C08)
+                 ["LossChannel", "ThermalLossChannel", "Gaussian", "Del", "MSgate"])  # (New on bosonic: recorded finding under C08)
 GAUSSIAN_OK = set(ONE_GATES + TWO_GATES + PREPS + ["LossChannel", "ThermalLossChannel", "PassiveChannel",
                                                   "Interferometer", "GaussianTransform", "Gaussian", "New", "Del"])
 
@@ -268,6 +268,11 @@ def _gen_params(rng, name, small, gen):
         return [gen.transmissivity(rng)]
     if name == "ThermalLossChannel":
         return [gen.transmissivity(rng), float(rng.choice([0.0, rng.uniform(0, 0.3 if small else 1.0)]))]
+    if name == "MSgate":
+        # average map of measurement-based squeezing: either sign of r, ideal and lossy ancilla detection, the default
+        # (practically infinite) and a realistic ancilla squeezing
+        r = float(rng.uniform(0.05, 0.4 if small else 0.8)) * (1 if rng.random() < 0.7 else -1)
+        return [r, gen.angle(rng), float(rng.choice([10.0, 1.2, 0.4])), float(rng.choice([1.0, 0.95, 0.6, 0.3]))]
     raise KeyError(name)
 
 
@@ -288,7 +293,7 @@ def gen_program(rng, gen, n=None, length=None, small=True, allow=None, prefix=Tr
             a, b = (int(x) for x in rng.choice(n, 2, replace=False))
             cmds.append({"op": "BSgate", "p": [float(rng.uniform(0.3, 1.2)), float(rng.uniform(0, 6.28))], "m": [a, b],
                          "dag": False})
-    pool1 = [x for x in ONE_GATES + ["LossChannel", "ThermalLossChannel"] + PREPS if x in allow]
+    pool1 = [x for x in ONE_GATES + ["LossChannel", "ThermalLossChannel", "MSgate"] + PREPS if x in allow]
     pool2 = [x for x in TWO_GATES if x in allow]
     for _ in range(L):
         r = rng.random()
